@@ -4,7 +4,7 @@ import random
 from fractions import Fraction as Fr
 
 from harness import common
-from harness.common import Report, afflit, boollit, eval_bad_indices, optlit, proof_gate, ptlit, qlit
+from harness.common import Report, evaluate_corr, afflit, boollit, eval_bad_indices, optlit, proof_gate, ptlit, qlit
 from harness.pyconv import paint_json, paintlit
 
 IMPORTS = [
@@ -168,7 +168,7 @@ def run(report: Report, n_cases: int):
         report.hist("transformed.constructor", type(out).__name__)
         nontriv = not (t[:4] == (1, 0, 0, 1) and t[4].denominator == 1 and t[5].denominator == 1)
         report.count(("tr", t, repr(target)), nontriv)
-    _evaluate(report, "transformed", "tr_case", cases, meta, "tr_agree", "tr_prop")
+    evaluate_corr(report, IMPORTS, "Corr.C16", "transformed", "tr_case", cases, meta, "tr_agree", "tr_prop")
     report.sample(meta[min(7, len(meta) - 1)])
 
     # ---- range predicates --------------------------------------------------------------
@@ -182,7 +182,7 @@ def run(report: Report, n_cases: int):
         cases.append(f"({qlit(v)}, {boollit(got[0])}, {boollit(got[1])}, {boollit(got[2])})")
         meta.append(dict(function="fixed.*_safe", value=str(v), impl_out=list(got)))
         report.count(("rg", v), True)
-    _evaluate(report, "range_predicates", "rg_case", cases, meta, "rg_agree", "rg_prop")
+    evaluate_corr(report, IMPORTS, "Corr.C16", "range_predicates", "rg_case", cases, meta, "rg_agree", "rg_prop")
 
     # ---- gradients -------------------------------------------------------------------
     def gpt(big=False):
@@ -204,7 +204,7 @@ def run(report: Report, n_cases: int):
         meta.append(dict(function="PaintLinearGradient.apply_transform", stratum=kind, transform=[str(v) for v in t], check=chk, gradient=paint_json(g), impl_out=None if out is None else paint_json(out)))
         report.hist("linear.result", "OverflowError" if out is None else "ok")
         report.count(("ln", t, repr(g), chk), t != (1, 0, 0, 1, 0, 0))
-    _evaluate(report, "linear_apply_transform", "ln_case", cases, meta, "ln_agree", "ln_prop")
+    evaluate_corr(report, IMPORTS, "Corr.C16", "linear_apply_transform", "ln_case", cases, meta, "ln_agree", "ln_prop")
     report.sample(meta[0])
 
     # ---- _decompose_uniform_transform and radial apply_transform ------------------------
@@ -247,42 +247,10 @@ def run(report: Report, n_cases: int):
         rmeta.append(dict(function="PaintRadialGradient.apply_transform", stratum=kind, transform=[str(v) for v in t], hypot=[str(hx), str(hy)], check=chk, gradient=paint_json(g), impl_out=None if rout is None else paint_json(rout), error=rerr))
         report.hist("radial.result", rerr or type(rout).__name__)
         report.count(("rd", t, repr(g), chk), True)
-    _evaluate(report, "decompose_uniform_transform", "du_case", cases, meta, "du_agree", "du_prop")
-    _evaluate(report, "radial_apply_transform", "rd_case", rcases, rmeta, "rd_agree", "rd_prop")
+    evaluate_corr(report, IMPORTS, "Corr.C16", "decompose_uniform_transform", "du_case", cases, meta, "du_agree", "du_prop")
+    evaluate_corr(report, IMPORTS, "Corr.C16", "radial_apply_transform", "rd_case", rcases, rmeta, "rd_agree", "rd_prop")
     if rmeta:
         report.sample(rmeta[0])
-
-
-def _evaluate(report, name, case_type, cases, meta, agree, prop):
-    """Model-vs-implementation (agree) and property-on-implementation-output (prop)."""
-    try:
-        bad = eval_bad_indices(IMPORTS, "", case_type, cases, [agree, prop], tag=name)
-    except RuntimeError as e:
-        report.violation(
-            f"corr_{name}_uncheckable",
-            dict(kind="corr", function=name, correspondence=f"Corr.C16.{agree}", error=str(e)),
-            found_input=False,
-        )
-        return
-    report.notes[f"{name}.cases"] = len(cases)
-    report.notes[f"{name}.disagreements"] = len(bad[agree])
-    report.notes[f"{name}.property_failures"] = len(bad[prop])
-    if bad[prop]:
-        i = bad[prop][0]
-        report.violation(
-            f"{name}_{i}",
-            dict(kind="corr+property", function=name, case=meta[i], model_agrees=i not in bad[agree],
-                 checker=f"Corr.C16.{prop}", note="the implementation's own output fails the property predicate"),
-        )
-    elif bad[agree]:
-        i = bad[agree][0]
-        report.violation(
-            f"{name}_{i}",
-            dict(kind="corr", function=name, case=meta[i], correspondence=f"Corr.C16.{agree}",
-                 note="model and implementation disagree; property predicate held on all implementation outputs explored",
-                 disagreeing_cases=len(bad[agree])),
-            found_input=False,
-        )
 
 
 def main(argv):
